@@ -61,8 +61,8 @@ func NewUfsSys(x *Ctx, srvMsize uint32, srvDotu bool, maxpend, debug int) *UfsSy
 	if x.C.cfg("printdbg") != 0 {
 		ufs.Debuglevel |= go9p.DbgPrintFcalls
 	}
-	if ufs.Debuglevel != 0 {
-		ufs.Log = go9p.NewLogger(64)
+	if ufs.Debuglevel != 0 && x.C.Seed%2 == 0 {
+		ufs.Log = go9p.NewLogger(64) // (the other half of the cases leaves the logger to the server, as most programs do)
 	}
 	if !ufs.Start(ufs) {
 		x.Trouble("Ufs.Start failed")
